@@ -39,7 +39,7 @@ fn joint_inv(p: &Peripheral, s: &Slave) -> bool {
     }
 }
 
-fn rounds_to_run(state: PeripheralState, fcb: crate::fdl::FrameCountBit, retry: u8, diag_needed: bool, limit: u8, mut sl: Slave, ni: usize, trace: bool) -> Result<usize, String> {
+fn rounds_to_run(state: PeripheralState, fcb: crate::fdl::FrameCountBit, retry: u8, diag_needed: bool, limit: u8, mut sl: Slave, ni: usize, trace: bool, lose_first: usize, user_diag_from: Option<usize>) -> Result<usize, String> {
     let mut params = crate::fdl::Parameters::default();
     params.max_retry_limit = limit;
     let fdl = crate::fdl::FdlActiveStation::new(params);
@@ -53,15 +53,20 @@ fn rounds_to_run(state: PeripheralState, fcb: crate::fdl::FrameCountBit, retry: 
     p.state = state; p.fcb = fcb; p.retry_count = retry; p.diag_needed = diag_needed;
     if !joint_inv(&p, &sl) { return Ok(0); }
     let mut running_since: Option<usize> = None;
+    let mut user_diag_pending = user_diag_from;
     for k in 0..60 {
         let mut buf = [0u8; 256];
         let now = crate::time::Instant::ZERO;
+        // the user may ask for diagnostics at any point where no request of this peripheral is being retried (F8 excluded)
+        if let Some(from) = user_diag_pending { if k >= from && p.retry_count == 0 && p.is_live() { p.request_diagnostics(); user_diag_pending = None; } }
+        let image_before: Vec<u8> = p.pi_i().to_vec();
         let r = p.transmit_telegram(now, &dp, &fdl, crate::fdl::TelegramTx::new(&mut buf), crate::fdl::HighPrioOnly::No);
         if let Ok(res) = r {
             let n = res.bytes_sent();
             let (t, _) = crate::fdl::Telegram::deserialize(&buf[..n]).unwrap().unwrap();
             let (dsap, fcbit) = match &t { crate::fdl::Telegram::Data(d) => (d.h.dsap, match d.h.fc { crate::fdl::FunctionCode::Request { fcb, .. } => fcb, _ => crate::fdl::FrameCountBit::Inactive }), _ => (None, crate::fdl::FrameCountBit::Inactive) };
             let resp = slave_step(&mut sl, dsap, fcbit);
+            if k < lose_first { if trace { eprintln!("round {k}: reply lost"); } continue; }
             let flags: u16 = 0x0400 | match sl.st { SlSt::WaitPrm => 0x0102, SlSt::WaitCfg => 0x0002, SlSt::DataExch => 0 };
             let diag_pdu = [flags as u8, (flags >> 8) as u8, 0, 1, 0x12, 0x34];
             let in_data = vec![0x5au8; ni];
@@ -73,7 +78,10 @@ fn rounds_to_run(state: PeripheralState, fcb: crate::fdl::FrameCountBit, retry: 
                 Resp::Data => crate::fdl::Telegram::Data(crate::fdl::DataTelegram { h: crate::fdl::DataTelegramHeader { da: 1, sa: 8, dsap: None, ssap: None, fc: ok }, pdu: &in_data }),
                 Resp::Rs => crate::fdl::Telegram::Data(crate::fdl::DataTelegram { h: crate::fdl::DataTelegramHeader { da: 1, sa: 8, dsap: None, ssap: None, fc: rs }, pdu: &[] }),
             };
-            let _ = p.receive_reply(now, &dp, &fdl, tel);
+            let ev = p.receive_reply(now, &dp, &fdl, tel);
+            // C04: the input image changes only through a Data_Exchange reply, and then equals its payload
+            if resp == Resp::Data && dsap.is_none() { if p.pi_i() != &in_data[..] { return Err(format!("round {k}: data reply not copied into the input image")); } }
+            else if p.pi_i() != &image_before[..] { return Err(format!("round {k}: input image changed from {:02x?} to {:02x?} by a {:?} reply to a request with DSAP {:?} (event {:?})", image_before, p.pi_i(), resp, dsap, ev)); }
             if trace { eprintln!("round {k}: sent dsap={dsap:?} fcb={fcbit:?} -> slave {resp:?} ({:?}) -> master {:?} fcb={:?} retry={}", sl, p.state, p.fcb, p.retry_count); }
         } else if trace { eprintln!("round {k}: no telegram -> master {:?} fcb={:?} retry={}", p.state, p.fcb, p.retry_count); }
         if p.is_running() && sl.st == SlSt::DataExch { if running_since.is_none() { running_since = Some(k + 1); } } else { running_since = None; }
@@ -88,21 +96,24 @@ pub fn c07_recover(args: &[String], _seed: u64) -> Vec<String> {
     let slst = [SlSt::WaitPrm, SlSt::WaitCfg, SlSt::DataExch];
     let lasts = [Resp::Sc, Resp::Diag, Resp::Data, Resp::Rs];
     let stored = [None, Some(false), Some(true)];
-    if args.len() == 9 {
+    if args.len() == 11 {
         let v: Vec<i64> = args.iter().map(|s| s.parse().unwrap()).collect();
         let sl = Slave { st: slst[v[5] as usize], stored: stored[(v[6] + 1) as usize], last: lasts[v[7] as usize] };
-        let r = rounds_to_run(states[v[0] as usize], fcbs[v[1] as usize], v[2] as u8, v[3] != 0, v[4] as u8, sl, v[8] as usize, true);
+        let r = rounds_to_run(states[v[0] as usize], fcbs[v[1] as usize], v[2] as u8, v[3] != 0, v[4] as u8, sl, v[8] as usize, true, v[9] as usize, if v[10] < 0 { None } else { Some(v[10] as usize) });
         return vec![format!("{{\"oracle\":\"c07_recover\",\"status\":\"{}\",\"input\":[{}],\"observed\":\"{}\"}}", if r.is_ok() { "pass" } else { "fail" }, v.iter().map(|x| x.to_string()).collect::<Vec<_>>().join(","), match r { Ok(k) => format!("running after {k} rounds"), Err(e) => e.replace('"', "'") })];
     }
     let mut n = 0u64;
     let mut worst = 0usize;
     for limit in [1u8, 2, 3, 7, 15] { for (si, st) in states.iter().enumerate() { for (fi, f) in fcbs.iter().enumerate() { for retry in 0..=limit + 1 { for dn in [false, true] {
-        for (a, s1) in slst.iter().enumerate() { for (b, s2) in stored.iter().enumerate() { for (c, s3) in lasts.iter().enumerate() { for ni in [0usize, 2] {
+        for (a, s1) in slst.iter().enumerate() { for (b, s2) in stored.iter().enumerate() { for (c, s3) in lasts.iter().enumerate() { for ni in [0usize, 2, 6] {
+          for (lose_first, user_diag) in [(0usize, None), (limit as usize + 1, None), (0, Some(3usize)), (limit as usize + 1, Some(limit as usize + 4)), (1, Some(9))] {
+            if limit > 3 && (lose_first != 0 || user_diag.is_some()) { continue; }
             n += 1;
-            match rounds_to_run(*st, *f, retry, dn, limit, Slave { st: *s1, stored: *s2, last: *s3 }, ni, false) {
-                Ok(k) => { if k > worst + limit as usize { } worst = worst.max(k.saturating_sub(limit as usize)); }
-                Err(e) => return vec![format!("{{\"oracle\":\"c07_recover\",\"status\":\"fail\",\"input\":[{si},{fi},{retry},{},{limit},{a},{},{c},{ni}],\"observed\":\"{}\",\"evaluations\":{n}}}", dn as u8, b as i64 - 1, e.replace('"', "'"))],
+            match rounds_to_run(*st, *f, retry, dn, limit, Slave { st: *s1, stored: *s2, last: *s3 }, ni, false, lose_first, user_diag) {
+                Ok(k) => { if lose_first == 0 && user_diag.is_none() { worst = worst.max(k.saturating_sub(limit as usize)); } }
+                Err(e) => return vec![format!("{{\"oracle\":\"c07_recover\",\"status\":\"fail\",\"input\":[{si},{fi},{retry},{},{limit},{a},{},{c},{ni},{lose_first},{}],\"observed\":\"{}\",\"evaluations\":{n}}}", dn as u8, b as i64 - 1, user_diag.map(|x| x as i64).unwrap_or(-1), e.replace('"', "'"))],
             }
+          }
         } } } }
     } } } } }
     vec![format!("{{\"oracle\":\"c07_recover\",\"status\":\"pass\",\"evaluations\":{n},\"worst_rounds_minus_retry_limit\":{worst}}}")]
